@@ -15,6 +15,7 @@ T[cnt]='s/^\( *\)++\(inserted\|deleted_elements\|deleted\);/\1\2 += 1;/'
 T[neq]='s/if (keyed_position != m_keyed_elements.end())/if (m_keyed_elements.end() != keyed_position)/'
 T[pk]='s/if (peek == peek::no)/if (peek != peek::yes)/'
 for t in ${BATTERY_TRANSFORMS:-inc dec post ne0 ren flip cnt neq pk}; do
+  [ -n "${T[$t]:-}" ] || continue        # BATTERY_TRANSFORMS=none: only the refactorings
   r=/tmp/bat_$$_$t; rm -rf $r; mkdir -p $r/repo $r/build; cp -r $REPO_SRC/inc $REPO_SRC/src $r/repo/
   changed=""
   for h in $r/repo/inc/cappuccino/*_cache.hpp $r/repo/inc/cappuccino/ut_map.hpp $r/repo/inc/cappuccino/ut_set.hpp; do
@@ -29,6 +30,8 @@ done
 for pd in harmless/*/patch.diff; do
   [ -f "$pd" ] || continue
   id=$(basename $(dirname $pd))
+  # BATTERY_ONLY="R3 R17": only these refactorings (e.g. to run the battery in parallel shards)
+  if [ -n "${BATTERY_ONLY:-}" ]; then case " $BATTERY_ONLY " in *" $id "*) ;; *) continue;; esac; fi
   r=/tmp/bat_$$_$id; rm -rf $r; mkdir -p $r/repo $r/build; cp -r $REPO_SRC/inc $REPO_SRC/src $r/repo/
   (cd $r/repo && patch -p1 -s < "$OLDPWD/$pd") || { echo "refactoring=$id patch-failed"; rm -rf $r; continue; }
   out=$(VERIF_REPO=$r/repo VERIF_BUILD=$r/build python3 tools/gen_check.py "$@" 2>&1 | awk '$2=="ok"||$2=="BROKEN"{print $1"="$2}' | tr '\n' ' ')
